@@ -531,6 +531,39 @@ func c11Scenarios() []c11Scenario {
 				return "", "7"
 			}
 		}},
+		{"S12-histogram-observations", func(w *c11World) ([]func(), func() (string, string)) {
+			col := metrics.NewCollector()
+			h := col.Histogram("lat", nil)
+			tm := col.Timer("t", nil)
+			var mid [2]float64
+			var midN int64
+			th := []func(){
+				func() { h.Observe(0.5); h.Observe(20000); tm.TimeFunc(func() {}) },
+				func() { h.Observe(2); h.Observe(0.25); tm.TimeFunc(func() {}) },
+				func() {
+					col.Histogram("lat", nil).Observe(64)
+					midN = h.Count()
+					mid[0] = h.Sum()
+					mid[1] = h.Percentile(100)
+				},
+			}
+			return th, func() (string, string) {
+				// every value is a binary fraction: the sum is exact in any order
+				if h.Count() != 5 || h.Sum() != 20066.75 {
+					return fmt.Sprintf("5 observations totalling 20066.75 were made; the histogram reports %d totalling %v (lost update)", h.Count(), h.Sum()), ""
+				}
+				if m := h.Mean(); m != 20066.75/5 {
+					return fmt.Sprintf("histogram mean %v, exact %v", m, 20066.75/5), ""
+				}
+				if n := tm.Histogram().Count(); n != 2 {
+					return fmt.Sprintf("2 durations were recorded, the timer reports %d", n), ""
+				}
+				if midN < 1 || midN > 5 || mid[0] < 64 || mid[0] > 20066.75 {
+					return fmt.Sprintf("a reader saw %d observations totalling %v while 1..5 totalling 64..20066.75 were possible", midN, mid[0]), ""
+				}
+				return "", fmt.Sprintf("mid=%d/%v", midN, mid[0])
+			}
+		}},
 	}
 }
 
@@ -717,7 +750,7 @@ func c11Run(c *lib.Ctx) {
 	}
 	// assign workers to scenarios: scenario = shard % len, r = shard / len
 	// worker -> scenario table: the monitored-database scenario has by far the largest schedule space
-	table := []int{0, 1, 2, 3, 4, 5, 6, 7, 8, 9, 10, 5, 5, 5, 5, 5}
+	table := []int{0, 1, 2, 3, 4, 5, 6, 7, 8, 9, 10, 11, 5, 5, 5, 5}
 	if c.NShards != len(table) {
 		table = nil
 		for i := 0; i < c.NShards; i++ {
@@ -864,7 +897,7 @@ func init() {
 	lib.Subs["c11race"] = c11RaceChild
 	lib.Register(&lib.Check{
 		ID: "C11", Level: "model_checking",
-		Rule:      "stateless schedule exploration (iterative context bounding): 11 closed scenarios of 3 threads x 1-3 operations on the real objects - S1 LRU capacity 2 (put/get/size/stats on colliding keys), S10 LRU with two writers of one key, S2 LRU with TTL (get / delete+put / clock advance+sweep+stats), S3 CachedDatabase (cached searches, InvalidateCache, CleanupExpiredCache, GetCacheStats), S11 CachedDatabase with entries ageing past their lifetime (searches vs clock advance + sweep vs stats + invalidate), S4 MonitoredDatabase (monitored searches + report), S5 metrics collector (two threads creating the same new series + histogram + GetAllMetrics), S6 direct SearchUniversal, S7 first searches on the loader's built-in fallback database, S8 SearchCache Put/Get vs InvalidatePattern, S9 counter/gauge increments - every interleaving with <=3 (quick) / <=4 (thorough) preemptions at every Lock/RLock/atomic operation of the code under test; per execution: search answers equal solo answers, the recorded LRU call/return history is linearizable w.r.t. the LRU+TTL model (porcupine), totals equal the calls made, no deadlock / panic. states = executions (each a distinct schedule), transitions = scheduling points, traces validated = executions. Beside it, per scenario, a free-running -race pass (200 / 3000 repetitions) of the same bodies built without the scheduler shims: dynamic analysis, reported under race_pass_runs, not part of the exhaustive count. non-trivial = distinct observed outcomes",
+		Rule:      "stateless schedule exploration (iterative context bounding): 12 closed scenarios of 3 threads x 1-3 operations on the real objects - S1 LRU capacity 2 (put/get/size/stats on colliding keys), S10 LRU with two writers of one key, S2 LRU with TTL (get / delete+put / clock advance+sweep+stats), S3 CachedDatabase (cached searches, InvalidateCache, CleanupExpiredCache, GetCacheStats), S11 CachedDatabase with entries ageing past their lifetime (searches vs clock advance + sweep vs stats + invalidate), S4 MonitoredDatabase (monitored searches + report), S5 metrics collector (two threads creating the same new series + histogram + GetAllMetrics), S6 direct SearchUniversal, S7 first searches on the loader's built-in fallback database, S8 SearchCache Put/Get vs InvalidatePattern, S9 counter/gauge increments, S12 five observations of one histogram from three goroutines with a reader of count and sum (exact sum, no lost update) - every interleaving with <=3 (quick) / <=4 (thorough) preemptions at every Lock/RLock/atomic operation of the code under test; per execution: search answers equal solo answers, the recorded LRU call/return history is linearizable w.r.t. the LRU+TTL model (porcupine), totals equal the calls made, no deadlock / panic. states = executions (each a distinct schedule), transitions = scheduling points, traces validated = executions. Beside it, per scenario, a free-running -race pass (200 / 3000 repetitions) of the same bodies built without the scheduler shims: dynamic analysis, reported under race_pass_runs, not part of the exhaustive count. non-trivial = distinct observed outcomes",
 		Assume:    []string{"scheduling points are the sync and sync/atomic function-API operations of the repository packages (build overlay); plain memory accesses are covered only by the separate race pass", "the shim RWMutex is writer-preferring like Go's (a reader arriving after Lock was called waits for that writer's Unlock)", "sequential consistency"},
 		QuickSecs: 360, ThorSecs: 1800, Graph: true,
 		Run: c11Run,
